@@ -57,6 +57,13 @@ Section C13.
     do h <- hashnew (asc "sha256") (rfc7638_canonical (restrict K names)); Ok (b64e h).
   Proof. exact (is_rfc7638 hashnew). Qed.
 
+  (* every key object's dictionary carries kty = the key type of its class
+     (whatever the imported dict or the parameters say), so the kty member of
+     the hashed object is the class's key type *)
+  Theorem c13_kty_is_class : forall c orig params,
+    dget (mk_dict c orig params) s_kty = Some (PStr (asc (kc_kty c))).
+  Proof. exact mk_dict_kty. Qed.
+
   (* the same for rfc7638.thumbprint with any field list and any digest name:
      the value is the digest of the canonical object of the sorted fields *)
   Theorem c13_digest_choice : forall d fields dg names,
@@ -316,6 +323,7 @@ Print Assumptions c13_required_members.
 Print Assumptions c13_required_members_sorted.
 Print Assumptions c13_plain_verbatim.
 Print Assumptions c13_is_rfc7638.
+Print Assumptions c13_kty_is_class.
 Print Assumptions c13_digest_choice.
 Print Assumptions c13_field_order_irrelevant.
 Print Assumptions c13_hashes_json_text.
